@@ -2,11 +2,9 @@ package verifx
 
 import (
 	"os"
-	"os/exec"
 	"path/filepath"
 	"testing"
 
-	"go.uber.org/cff/verifx/rt"
 	"pgregory.net/rapid"
 )
 
@@ -17,25 +15,16 @@ func TestSmokeRender(t *testing.T) {
 	}
 	var p *PackageSpec
 	rapid.Check(t, func(rt_ *rapid.T) {
-		p = &PackageSpec{}
 		o := DefaultOpts()
-		n := 0
-		for fi := 0; fi < 3; fi++ {
-			f := &FileSpec{Name: "f" + string(rune('1'+fi)) + ".go", Header: "//go:build cff\n", Idx: fi, Decor: fi}
-			for k := 0; k < 6; k++ {
-				f.Progs = append(f.Progs, GenDirective(rt_, "Prog"+string(rune('A'+n)), o))
-				n++
-			}
-			p.Files = append(p.Files, f)
+		if os.Getenv("SMOKE_MOD") != "" {
+			o.ModSubset = true
+			o.PParallel = 0
+			o.Spellings = []string{"lit"}
 		}
+		p = GenPackage(rt_, o, 2, 4)
 	})
-	_ = rt.MapKey
 	os.RemoveAll(filepath.Join(dir, "vcase"))
 	if err := WriteModule(filepath.Join(dir, "vcase"), p, "rt", "/repo"); err != nil {
 		t.Fatal(err)
 	}
-	cmd := exec.Command("go", "vet", "-tags", "cff", "./...")
-	cmd.Dir = filepath.Join(dir, "vcase")
-	out, err := cmd.CombinedOutput()
-	t.Logf("vet -tags cff: %v\n%s", err, out)
 }
